@@ -42,6 +42,10 @@ def names(b):
 
 
 def make_base(k):
+    if isinstance(k, list):   # an explicit record list (sweep cases)
+        from ..universe import recs_from_json
+
+        return Converter([to_record(r) for r in recs_from_json(k)])
     if BASES[k] == "incremental":
         conv = Converter([])
         conv.add_prefix("c", "z")
